@@ -300,6 +300,15 @@ def run_session(jobs):
         return orig_append(self, sim)
     BatchSimulation.append = hooked_append
 
+    # control point "save" of Batch.tla: save_results has been entered, its try
+    # block has not (an interrupt here is not caught by save_results)
+    orig_save_results = BatchSimulation.save_results
+
+    def hooked_save_results(self):
+        state['fault'].save_point('save')
+        return orig_save_results(self)
+    BatchSimulation.save_results = hooked_save_results
+
     via_cli = bool(first.get('via_run_file')) and len(jobs) == 1 and first['savefreq'] == 1
     if via_cli:
         # the path `panqec run -i input.json -o results -t N` takes: the
